@@ -20,6 +20,7 @@ pub const ORDER_INDEPENDENT: &[&str] = &[
     "ExpectedInteger",
     "ExpectedString",
     "ExpectedSyntaxNode",
+    "InvalidVariableScope",
     "DuplicateAttribute",
     "DuplicateVariable",
     "FunctionFailed",
